@@ -6,4 +6,4 @@ CONSTANTS
   Predict = FALSE
   MaxMut = 2
   Sugars = {"full"}
-INVARIANTS Export Terminates StoreOK Predicted
+INVARIANTS Export Terminates StoreOK Predicted WellTypedInv
